@@ -45,4 +45,3 @@ pub open spec fn arg_post(ctx: FunctionContext, i: int, r: ResolveResult) -> boo
 //@item interpreter/src/magic.rs :: struct Arguments
 //@item interpreter/src/resolvers.rs :: struct Argument [pub]
 //@item interpreter/src/resolvers.rs :: struct AllArguments [pub]
-pub assume_specification<P: std::str::pattern::Pattern> [str::contains] (_0: &str, _1: P) -> bool;
